@@ -1,9 +1,10 @@
 #!/bin/bash
 # Runs every registered check (tier $1, default quick) at several seeds; prints non-held results.
+# IDS="C01 C04" restricts the run to some checks (soak runs of the tolerance-based monitors).
 cd "$(dirname "$0")"
 TIER="${1:-quick}"; shift
 SEEDS="${@:-1 2 3 7 1234}"
-for id in $(cat BUILT); do
+for id in ${IDS:-$(cat BUILT)}; do
   for s in $SEEDS; do
     out=$(VERIF_SEED=$s ./check $id $TIER 2>&1); code=$?
     echo "$id seed=$s exit=$code $(echo "$out" | grep SUMMARY | sed 's/.*evaluations=/evaluations=/')"
